@@ -15,19 +15,25 @@ TraceThreads == 0..7
 VARIABLE l           \* position of the next event
 
 tvars == <<absvars, l>>
+\* everPut (all pairs ever put) is a function of the position in the recording: it is left out of the state
+\* fingerprint (VIEW), which otherwise costs time proportional to the length of the history at every step
+TView == <<kv, pend, mode, back, cfg, seq, ver, acked, floor, closing, closedLin, img, scans, bk, held, l>>
 
 Ev      == Trace[l]
 Is(e)   == l <= Len(Trace) /\ Trace[l].e = e
 Step    == l' = l + 1
 
-DefaultCfg == [syncw |-> FALSE, strict |-> TRUE, bg |-> FALSE, dur |-> TRUE]
+DefaultCfg == [syncw |-> FALSE, strict |-> TRUE, bg |-> FALSE, dur |-> TRUE, ep |-> TRUE]
 
 TInit ==
   /\ InitAbs(DefaultCfg)
   /\ l = 1
   /\ TLCSet(1, 1)
 
-TReset == Is("reset") /\ Step /\ ResetAbs([syncw |-> Ev.syncw, strict |-> Ev.strict, bg |-> Ev.bg, dur |-> Ev.dur])
+\* ep: keep the set of all pairs ever put (needed by stepped scans and damaged tails; switched off by drivers whose
+\* histories are long and contain neither - every step would otherwise copy a set as long as the history)
+TReset == Is("reset") /\ Step /\ ResetAbs([syncw |-> Ev.syncw, strict |-> Ev.strict, bg |-> Ev.bg, dur |-> Ev.dur,
+                                              ep |-> IF "ep" \in DOMAIN Ev THEN Ev.ep ELSE TRUE])
 
 TInv   == Is("inv") /\ Step /\ Inv(Ev.t, Ev)
 
@@ -106,6 +112,10 @@ TGoldenOpened == Is("golden_opened") /\ Step
                  /\ kv' = Ev.kv /\ mode' = "open" /\ everPut' = Pairs(Ev.kv)
                  /\ UNCHANGED <<pend, back, cfg, seq, ver, acked, floor, closing, closedLin, img, scans, bk, held>>
 
+\* C15: after Close returned, the process holds no descriptor and no mapping of the database directory
+\* (a handle leaked per session is growth with history)
+TClosedRes == Is("closed_res") /\ Step /\ Ev.fds = 0 /\ Ev.maps = 0 /\ UNCHANGED absvars
+
 \* free-form information for the reader of a recording
 TNote == (Is("note") \/ Is("wal") \/ Is("idx")) /\ Step /\ UNCHANGED absvars   \* "wal", "idx": projected log / index state, judged by TraceWal.tla / TraceLH.tla only
 
@@ -116,7 +126,7 @@ TNote == (Is("note") \/ Is("wal") \/ Is("idx")) /\ Step /\ UNCHANGED absvars   \
 TNext ==
   \/ TReset \/ TInv \/ TRet \/ TLin \/ TScanStart
   \/ TImage \/ TReopened \/ TDamagedOpened \/ TRestore \/ TContinue \/ TReadAll \/ TBackupOpened
-  \/ TGoldenOpened \/ TDecoded \/ TOpenLocked \/ THold \/ TObserve \/ TListing \/ TRound \/ TFsCmp \/ TNote
+  \/ TGoldenOpened \/ TDecoded \/ TOpenLocked \/ THold \/ TObserve \/ TListing \/ TRound \/ TFsCmp \/ TClosedRes \/ TNote
 
 TSpec == TInit /\ [][TNext]_tvars
 
